@@ -26,6 +26,7 @@ use vcheck::ffi::{self, Storm};
 fn worker() -> ! {
     engine::install_panic_hook();
     guard::install_segv_reporter();
+    guard::install_stderr_filter();
     let storm = Storm::load(&ffi::lib_path()).expect("libstorm");
     let ext = ext::Ext::load(&ffi::lib_path()).expect("libstorm ext");
     let mut max_handle: usize = 0;
@@ -44,11 +45,13 @@ fn worker() -> ! {
                         // leave the process-global handle tables clean for the next history
                         let keep = it.opi;
                         let _ = it.cleanup();
+                        it.sweep();
                         it.opi = keep;
                         Err(f)
                     }
                     Err(f) => {
                         let _ = it.cleanup();
+                        it.sweep();
                         Err(f)
                     }
                     ok => ok,
@@ -60,7 +63,7 @@ fn worker() -> ! {
                     Ok(c) => c,
                     Err(e) => return json!({"ok": false, "sig": "bad-case", "msg": e.to_string()}),
                 };
-                mt::run_mt(&storm, &ext, &c, dir.path())
+                mt::run_mt(&storm, &ext, &c, dir.path(), &mut max_handle)
             }
             _ => json!({"ok": false, "sig": "bad-case", "msg": "unknown case type"}),
         }
@@ -78,14 +81,15 @@ struct Judged {
 
 /// last announced call in a stderr tail: (api, variant)
 fn last_op(tail: &str) -> (String, String, String) {
-    let l = tail.lines().rev().find(|l| l.starts_with("OP ")).unwrap_or("OP ? ? ? ?");
+    let l = tail.lines().rev().find_map(|l| l.strip_prefix("LAST-OP ")).or_else(|| tail.lines().rev().find(|l| l.starts_with("OP "))).unwrap_or("OP ? ? ? ?");
     let f: Vec<&str> = l.split_whitespace().collect();
     (f.get(2).unwrap_or(&"?").to_string(), f.get(3).unwrap_or(&"-").to_string(), l.to_string())
 }
 
 fn panic_sig(tail: &str) -> String {
     let lines: Vec<&str> = tail.lines().collect();
-    for (i, l) in lines.iter().enumerate().rev() {
+    let mut found: Vec<String> = vec![];
+    for (i, l) in lines.iter().enumerate() {
         if let Some(p) = l.find("panicked at ") {
             let loc = l[p + 12..].trim_end_matches(':');
             let file = loc.split(':').next().unwrap_or("?");
@@ -98,10 +102,11 @@ fn panic_sig(tail: &str) -> String {
                 clean.push_str("0x#");
                 clean.push_str(part.trim_start_matches(|c: char| c.is_ascii_hexdigit()));
             }
-            return format!("{}:{}", engine::short_loc(file), engine::normalise_msg(&clean));
+            found.push(format!("{}:{}", engine::short_loc(file), engine::normalise_msg(&clean)));
         }
     }
-    "no-panic-message".into()
+    // the first panic is the cause; "panic in a function that cannot unwind" is its consequence
+    found.iter().find(|m| !m.contains("cannot unwind")).or(found.last()).cloned().unwrap_or_else(|| "no-panic-message".into())
 }
 
 fn judge(check: &Check, case: &Value, source: &str, out: &Outcome) -> Judged {
